@@ -170,12 +170,58 @@ func corruptFasta(r *RNG, txt, kind, where string) string {
 	return strings.Join(lines, "\n") + "\n"
 }
 
+var c18Cmds = []string{"snps", "closest", "closest-n", "list", "topranking", "variants", "toma", "topa", "samvariants"}
+
+// caseIndex: the running number at the end of a case ID ("C18-<seed>-<k>"), -1 if there is none
+func caseIndex(id string) int {
+	i := strings.LastIndex(id, "-")
+	if i < 0 {
+		return -1
+	}
+	n := 0
+	for _, ch := range id[i+1:] {
+		if ch < '0' || ch > '9' {
+			return -1
+		}
+		n = n*10 + int(ch-'0')
+	}
+	return n
+}
+
+// c18Combination: the k-th element of commands x kinds x where x which
+func c18Combination(k int) ([4]string, bool) {
+	for _, cmd := range c18Cmds {
+		seen := map[string]bool{}
+		for _, kind := range c18Kinds(cmd) {
+			if seen[kind] {
+				continue
+			}
+			seen[kind] = true
+			for _, where := range []string{"first", "middle", "last"} {
+				for which := 0; which < 3; which++ {
+					if k == 0 {
+						return [4]string{cmd, kind, where, fmt.Sprint(which)}, true
+					}
+					k--
+				}
+			}
+		}
+	}
+	return [4]string{}, false
+}
+
 func c18Gen(r *RNG, id string) *Case {
 	c := NewCase("EXIT", id)
-	cmds := []string{"snps", "closest", "closest-n", "list", "topranking", "variants", "toma", "topa", "samvariants"}
+	cmds := c18Cmds
 	cmd := r.PickStr(cmds)
 	c.Set("cmd", cmd).Set("expect", "refuse")
 	c.SetInt("setupseed", r.Intn(1<<30))
+	kinds := c18Kinds(cmd)
+	c.Set("kind", r.PickStr(kinds))
+	return c18Rest(r, id, c, cmd)
+}
+
+func c18Kinds(cmd string) []string {
 	kinds := []string{"short-row", "long-row", "bad-symbol", "header-without-id", "missing-file", "empty-file", "width-mismatch", "two-record-reference", "late-short-row", "late-bad-symbol"}
 	switch cmd {
 	case "toma", "topa", "samvariants":
@@ -196,12 +242,25 @@ func c18Gen(r *RNG, id string) *Case {
 	case "closest", "closest-n":
 		kinds = []string{"short-row", "long-row", "bad-symbol", "header-without-id", "missing-file", "empty-file", "width-mismatch", "late-short-row", "late-bad-symbol", "late-short-row", "late-bad-symbol"}
 	}
-	c.Set("kind", r.PickStr(kinds))
+	return kinds
+}
+
+func c18Rest(r *RNG, id string, c *Case, cmd string) *Case {
 	c.Set("where", r.PickStr([]string{"first", "middle", "last"}))
 	c.SetInt("which", r.Intn(8))
 	c.SetInt("wstart", 0).SetInt("wend", 0)
 	if r.Chance(1, 12) { // the unmodified input must be accepted (guards against a check that always says "refuse")
 		c.Set("kind", "none").Set("expect", "accept")
+	}
+	// the first cases of a run walk through the whole product the property quantifies over - every command x every
+	// corruption it can suffer x first / middle / last record x each of its input files (which = 0, 1, 2) - so that no
+	// combination depends on the draw; the random cases after them vary everything else (set-ups, options, symbols)
+	if k := caseIndex(id); k >= 0 {
+		if cmb, ok := c18Combination(k); ok {
+			c.Set("cmd", cmb[0]).Set("kind", cmb[1]).Set("where", cmb[2]).Set("which", cmb[3]).Set("expect", "refuse")
+			cmd = cmb[0]
+			c.Tag("systematic")
+		}
 	}
 	c.Tag(cmd)
 	c.Tag(c.Get("kind"))
